@@ -397,7 +397,9 @@ func (cc *connectUnaryClientConn) validateResponse(response *http.Response) *Err
 		if err := unmarshaler.UnmarshalFunc(
 			(*connectWireError)(&serverErr),
 			json.Unmarshal,
-		); err == nil {
+		); err == nil && serverErr.code != 0 {
+			// (A body without a usable error code isn't a Connect error: fall
+			// back to the code implied by the HTTP status.)
 			serverErr.meta = cc.responseHeader.Clone()
 			mergeHeaders(serverErr.meta, cc.responseTrailer)
 			return &serverErr
@@ -703,6 +705,11 @@ func (u *connectStreamingUnmarshaler) Unmarshal(message any) *Error {
 	}
 	u.trailer = end.Trailer
 	u.endStreamErr = (*Error)(end.Error)
+	if u.endStreamErr != nil && u.endStreamErr.code == 0 {
+		// The server reported an error without a usable code. That's still an
+		// error: never surface it with the zero (OK) code.
+		u.endStreamErr.code = CodeUnknown
+	}
 	return errSpecialEnvelope
 }
 
